@@ -299,4 +299,87 @@ Section WithFloat.
       as (es & Ees & Res); [intros e Hin; apply edge_roundtrip; apply He; exact Hin|].
     rewrite Ens, Ees. eexists. split; [reflexivity|]. repeat split; assumption.
   Qed.
+  (* ---- systems ---- *)
+  Definition space_equiv (a b : space_obj F) : Prop :=
+    match a, b with SpGrid _ g, SpGrid _ g' => grid_equiv g g' | SpGraph _ g, SpGraph _ g' => graph_equiv g g' | _, _ => False end.
+  Definition array_equiv (a b : list F * (usys * dim)) : Prop := fst a = fst b /\ units_equiv (snd a) (snd b) = true.
+  Definition system_equiv (s s' : system_obj F) : Prop :=
+    network_equiv (sy_net F s) (sy_net F s') /\ space_equiv (sy_space F s) (sy_space F s') /\ array_equiv (sy_state F s) (sy_state F s')
+    /\ sy_chs F s = sy_chs F s' /\ sy_units F s = sy_units F s'.
+  Definition wf_space (sp : space_obj F) : Prop := match sp with SpGrid _ g => wf_grid_obj g | SpGraph _ g => wf_graph_obj g end.
+  Definition wf_system (s : system_obj F) : Prop :=
+    wf_network (sy_net F s) /\ wf_space (sy_space F s) /\ snd (snd (sy_state F s)) = dimAmount
+    /\ forallb (fun e => (0 <=? e)%Z && (e <? Z.of_nat (length (no_envs F (sy_net F s))))%Z) (space_envs F (sy_space F s)) = true.
+
+  Lemma written_head (sc : schema) k tl v rest : sc = [k] :: tl ->
+    write_fields jv sc (Some v :: rest) = (k, v) :: write_fields jv tl rest.
+  Proof. intros ->. reflexivity. Qed.
+
+  Lemma space_roundtrip parent (sp : space_obj F) : wf_space sp ->
+    exists sp', read_space F parse_float zero one parent (write_space F print_float wr sp) = Ok sp' /\ space_equiv sp sp'.
+  Proof.
+    destruct sp as [g|g]; cbn [wf_space write_space]; intros Hw.
+    - destruct (grid_roundtrip parent g Hw) as (g' & Eg & Qg). unfold read_space.
+      assert (T : exists d, write_grid F print_float wr g = JObj ((k_type, JStr k_grid) :: d)).
+      { unfold write_grid, wr. destruct (go_per F g) as [[bx by_] bz].
+        assert (E : exists tl, schema_grid = [k_type] :: tl) by (vm_compute; eexists; reflexivity). destruct E as (tl & E).
+        rewrite (written_head schema_grid k_type tl _ _ E). eexists. reflexivity. }
+      destruct T as (d & T). rewrite T in *. cbn [find fst].
+      replace (str_eqb k_type k_type) with true by (symmetry; apply str_eqb_refl). cbn iota.
+      replace (str_eqb k_grid k_grid) with true by (symmetry; apply str_eqb_refl). rewrite Eg. exists (SpGrid _ g'). split; [reflexivity|exact Qg].
+    - destruct (graph_roundtrip parent g Hw) as (g' & Eg & Qg). unfold read_space.
+      assert (T : exists d, write_graph F print_float wr g = JObj ((k_type, JStr k_graph) :: d)).
+      { unfold write_graph, wr.
+        assert (E : exists tl, schema_graph = [k_type] :: tl) by (vm_compute; eexists; reflexivity). destruct E as (tl & E).
+        rewrite (written_head schema_graph k_type tl _ _ E). eexists. reflexivity. }
+      destruct T as (d & T). rewrite T in *. cbn [find fst].
+      replace (str_eqb k_type k_type) with true by (symmetry; apply str_eqb_refl). cbn iota.
+      replace (str_eqb k_graph k_grid) with false by (vm_compute; reflexivity).
+      replace (str_eqb k_graph k_graph) with true by (symmetry; apply str_eqb_refl). rewrite Eg. exists (SpGraph _ g'). split; [reflexivity|exact Qg].
+  Qed.
+
+  Lemma read_list_nums (xs : list F) :
+    read_list (fun x => match x with JNum n => match parse_float n with Some f => Ok f | None => Err end | _ => Err end) (map (fun x => JNum (print_float x)) xs) = Ok xs.
+  Proof. induction xs as [|x xs IH]; [reflexivity|]. cbn [map read_list]. rewrite float_roundtrip, IH. reflexivity. Qed.
+
+  Lemma unitarray_roundtrip d (a : list F * (usys * dim)) : snd (snd a) = d ->
+    exists a', read_unitarray F parse_float d (write_unitarray F print_float wr a) = Ok a' /\ array_equiv a a'.
+  Proof.
+    destruct a as [xs [u d0]]. cbn [snd]. intros ->. unfold read_unitarray, write_unitarray. cbn [fst snd].
+    assert (Hsc : wf_schema schema_unitarray = true /\ forallb (fun syn : list str => match syn with [] => false | _ => true end) schema_unitarray = true
+                  /\ length schema_unitarray = 2%nat) by (vm_compute; repeat split).
+    destruct Hsc as (Hwf & Hne & Hl). unfold wr.
+    rewrite (write_then_read jv schema_unitarray _ Hwf) by (try (cbn [length]; rewrite Hl; reflexivity); apply nonempty_of_forallb; exact Hne).
+    rewrite read_list_nums. destruct (parse_print_units u d) as (r & Er & Qr). rewrite Er. destruct r as [u' d'].
+    pose proof (units_equiv_dim u d (u', d') Qr) as Hd. cbn [snd] in Hd. rewrite Hd. eexists. split; [reflexivity|]. split; [reflexivity|exact Qr].
+  Qed.
+
+  Lemma envs_same sp sp' : space_equiv sp sp' -> space_envs F sp' = space_envs F sp.
+  Proof.
+    destruct sp as [g|g], sp' as [g'|g']; cbn [space_equiv space_envs]; try contradiction.
+    - intros (_ & _ & _ & E & _). symmetry. exact E.
+    - intros (Hn & _). induction Hn as [|n n' l l' H _ IH]; [reflexivity|]. cbn [map]. destruct H as (_ & E & _). rewrite E, IH. reflexivity.
+  Qed.
+
+  Lemma read_list_flags (es : list Z) :
+    read_list (fun x => match x with JInt z => Ok z | JBool b => Ok (if b then 1%Z else 0%Z) | _ => Err end) (map JInt es) = Ok es.
+  Proof. induction es as [|e es IH]; [reflexivity|]. cbn [map read_list]. rewrite IH. reflexivity. Qed.
+
+  Theorem system_roundtrip parent (s : system_obj F) : wf_system s ->
+    exists s', read_system F parse_float zero one parent (write_system F print_float wr s) = Ok s' /\ system_equiv s s'.
+  Proof.
+    intros (Hn & Hsp & Hst & Henv). unfold read_system, write_system.
+    assert (Hsc : wf_schema schema_system = true /\ forallb (fun syn : list str => match syn with [] => false | _ => true end) schema_system = true
+                  /\ length schema_system = 5%nat) by (vm_compute; repeat split).
+    destruct Hsc as (Hwf & Hne & Hl). unfold wr at 1.
+    rewrite (write_then_read jv schema_system _ Hwf) by (try (cbn [length]; rewrite Hl; reflexivity); apply nonempty_of_forallb; exact Hne).
+    unfold read_units_field. assert (U : read_usys (write_usys wr (sy_units F s)) = Ok (sy_units F s)) by apply usys_roundtrip.
+    unfold write_usys in U |- *. rewrite U.
+    destruct (network_roundtrip (sy_units F s) _ Hn) as (n' & En & Qn). rewrite En.
+    destruct (space_roundtrip (sy_units F s) _ Hsp) as (sp' & Es & Qs). rewrite Es.
+    destruct (unitarray_roundtrip dimAmount _ Hst) as (a' & Ea & Qa). rewrite Ea.
+    rewrite read_list_flags.
+    rewrite (envs_same _ _ Qs). destruct Qn as (Q1 & Q2 & Q3 & Q4). rewrite <- Q3, Henv.
+    eexists. split; [reflexivity|]. repeat split; try reflexivity; try assumption; apply Qa.
+  Qed.
 End WithFloat.
